@@ -7,7 +7,7 @@ from .. import sym as S
 from ..engine import Check
 from ..loader import AnalysisError
 from ..recon import _own_nodes
-from ..rulelib import conds_sym, func_outcomes, reach_table
+from ..rulelib import conds_sym, eval_conds, func_outcomes, reach_table
 
 LEVEL = "other"
 TECHNIQUE = ("static analysis: constant / slice comparison of the visor header decoding, must-pass-through rules for member "
@@ -38,35 +38,62 @@ def run(chk: Check):
     sup = [n for n in _own_nodes(ctx.func) if isinstance(n, ast.Call) and ast.unparse(n.func) == "super().frombuf"]
     ok = bool(sup) and [ast.unparse(a) for a in sup[0].args] == [a.arg for a in ctx.func.args.args[1:]]
     chk.decide(ok, "K-PROV", "frombuf-delegates", sup[0] if sup else ctx.func, "the standard header is parsed by tarfile (same buffer, encoding, errors)")
+    # stores to attributes of the parsed object, whatever the statement shape (chained targets, tuple targets):
+    # attr -> [(statement, value term, path conditions)]
     stores = {}
-    for n in _own_nodes(ctx.func):
-        if isinstance(n, ast.Assign) and isinstance(n.targets[0], ast.Attribute):
-            stores.setdefault(n.targets[0].attr, []).append(n)
-    okv = False
-    visor_t = None
-    if "is_visor" in stores:
-        t = R.expr(ctx, stores["is_visor"][0].value, ctx.cfg.node_of[stores["is_visor"][0]])
-        okv = t == S.cmp_("==", ("sub", BUF, ("slice", S.C(257), S.C(264))), S.C(b"visor  "))
-        visor_t = t
-    chk.decide(okv, "K-CONST", "visor-magic", stores.get("is_visor", [ctx.func])[0], "visor header: buf[257:264] == b'visor  '", found=S.show(visor_t)[:120] if visor_t else "none")
+
+    def targets_of(tgt, value_t, path, st):
+        if isinstance(tgt, ast.Attribute):
+            v = value_t
+            for i in path:
+                v = v[1][i] if v[0] in ("tuple", "list") and i < len(v[1]) else ("sub", v, S.C(i))
+            stores.setdefault(tgt.attr, []).append((st, v, conds_sym(chk, ctx, st)))
+        elif isinstance(tgt, (ast.Tuple, ast.List)):
+            for i, e in enumerate(tgt.elts):
+                targets_of(e, value_t, path + (i,), st)
+
+    for n in sorted((x for x in _own_nodes(ctx.func) if isinstance(x, ast.Assign)), key=lambda x: x.lineno):
+        vt = R.expr(ctx, n.value, ctx.cfg.node_of[n])
+        for tg in n.targets:
+            targets_of(tg, vt, (), n)
+    MAGIC = b"visor  "
+    visor_buf = bytes((i * 7 + 3) & 0xFF for i in range(257)) + MAGIC + bytes((i * 11 + 5) & 0xFF for i in range(512 - 264))
+    plain_buf = visor_buf[:257] + b"ustar  " + visor_buf[264:]
+    near_buf = visor_buf[:257] + b"visor \0" + visor_buf[264:]
+
+    def stored(attr, buf):
+        """Value left in obj.<attr> for this header block (the last store whose path condition holds)."""
+        ov = {BUF: buf}
+        if attr != "is_visor":
+            # later code reads the flag back from the object: it has the value that was stored for this block
+            flag = stored("is_visor", buf)
+            for _st, _t, cs in stores.get(attr, []):
+                for c, _p in cs:
+                    for x in S.walk(c):
+                        if isinstance(x, tuple) and x and x[0] == "attr" and x[2] == "is_visor" and flag[0] == "value":
+                            ov[x] = flag[1]
+        val = S.Valuation(1, override=ov)
+        got = ("missing",)
+        for st, t, conds in stores.get(attr, []):
+            if eval_conds(conds, val):
+                try:
+                    got = ("value", S.ev(t, val))
+                except S.EvalError as e:
+                    got = ("error", str(e))
+        return got
+
+    okv = stored("is_visor", visor_buf) == ("value", True) and stored("is_visor", plain_buf) == ("value", False) and stored("is_visor", near_buf) == ("value", False)
+    chk.decide(okv, "K-CONST", "visor-magic", stores.get("is_visor", [(ctx.func,)])[0][0], "visor header: buf[257:264] == b'visor  '",
+               found=str([stored("is_visor", b_) for b_ in (visor_buf, plain_buf, near_buf)]))
+    # the flag that later code reads is the same comparison (conditions below are evaluated on the buffer, so they follow it)
     for attr, lo in (("offset_data", 496), ("textPgs", 504), ("fixUpPgs", 508)):
+        want_v = int.from_bytes(visor_buf[lo:lo + 4], "little")
+        got_v, got_p = stored(attr, visor_buf), stored(attr, plain_buf)
+        ok = got_v == ("value", want_v) and got_p == ("value", None)
         sts = stores.get(attr, [])
-        vals = {}
-        for st in sts:
-            t = R.expr(ctx, st.value, ctx.cfg.node_of[st])
-            conds = conds_sym(chk, ctx, st)
-            flag = None
-            for c, p in conds:
-                for x in S.walk(c):
-                    if isinstance(x, tuple) and x and x[0] == "attr" and x[2] == "is_visor":
-                        flag = x
-            vis = reach_table(conds, {"v": flag}, [{"v": True}, {"v": False}]) if flag is not None else [None, None]
-            vals[tuple(vis)] = t
-        want = ("sub", S.call("ext:struct.unpack", [S.C("<I"), ("sub", BUF, ("slice", S.C(lo), S.C(lo + 4)))]), S.C(0))
-        ok = vals.get((True, False)) == want and vals.get((False, True)) == S.C(None)
-        chk.decide(ok, "K-FORMULA", f"visor-field:{attr}", sts[0] if sts else ctx.func,
+        chk.decide(ok, "K-FORMULA", f"visor-field:{attr}", sts[0][0] if sts else ctx.func,
                    f"{attr} = little-endian u32 at buf[{lo}:{lo + 4}] for visor headers, None otherwise",
-                   expected=S.show(want), found=str({k: S.show(v)[:80] for k, v in vals.items()}))
+                   expected=f"visor header: {want_v}; other header: None", found=f"visor header: {got_v}; other header: {got_p}")
     rets = [o for o in func_outcomes(chk, ctx) if o[0] == "return"]
     chk.decide(bool(rets) and all(S.show(o[3]).startswith("super.frombuf") or o[3][0] == "call" and o[3][1] == "super.frombuf" for o in rets), "K-PROV",
                "frombuf-returns-parsed-object", ctx.func, "the object parsed by tarfile is returned (with the visor fields attached)")
@@ -91,8 +118,6 @@ def run(chk: Check):
                             ov[x] = iv
                         if isinstance(x, tuple) and x and x[0] == "attr" and x[2] == "offset_data":
                             ov[x] = od
-                from ..rulelib import eval_conds
-
                 if eval_conds(o[2], S.Valuation(1, override=ov)):
                     kind = "self" if o[3] == ("self", k) else "super" if (o[3][0] == "call" and o[3][1] == "super._proc_member") else "?"
                     table[(iv, od)] = kind
